@@ -124,18 +124,28 @@ class Ctx:
         res["sample"] = sample_of(lines)
         tagmap = TAGMAP[kind_of(coll)]
         first_viol_in_segment = {}
+
+        def after(x, marker):
+            return any(marker in ln for ln in lines[x["seg"] - 1:x["l"]])
+
         for x in v["viols"]:
-            seg = segment_start(lines, x["l"])
+            x["seg"] = segment_start(lines, x["l"])
+        # defects that also show where no panic was injected / no clear was made are not the panic's
+        # (the clear's) doing: they belong to the property whose predicate it is, not to C18 (C12)
+        plain_fault = {x["tag"] for x in v["viols"] if not after(x, '"out":"unwound"')}
+        plain_twin = {x["tag"] for x in v["viols"] if not after(x, '"op":"clear"')}
+        for x in v["viols"]:
+            seg = x["seg"]
             first_viol_in_segment.setdefault(seg, x["l"])
             ids = set(tagmap.get(x["tag"], []))
-            # context: after an injected panic every later defect of the same segment is a C18 matter,
-            # after a clear every later wrong result of the same segment is a C12 matter
-            if "fault" in flags and any('"out":"unwound"' in ln for ln in lines[seg - 1:x["l"]]):
+            # context: after an injected panic a later defect of the same segment is a C18 matter,
+            # after a clear a later wrong result of the same segment is a C12 matter
+            if "fault" in flags and x["tag"] not in plain_fault and after(x, '"out":"unwound"'):
                 ids.add("C18")
-            if "twin" in flags and any('"op":"clear"' in ln for ln in lines[seg - 1:x["l"]]) and x["tag"] not in ("WF", "POOL", "GROWTH"):
+            if "twin" in flags and x["tag"] not in plain_twin and after(x, '"op":"clear"') and x["tag"] not in ("WF", "POOL", "GROWTH"):
                 ids.add("C12")
             if self.pid in ids:
-                res["mine"].append(dict(x, seg=seg))
+                res["mine"].append(dict(x))
         # A contract breach is a harness bug unless the code under test has already misbehaved earlier
         # in this run (the harness keeps its own record of what it asked for; once a call has had a
         # wrong effect that record and the reference drift apart, also across `load` segments).
